@@ -6,7 +6,7 @@
    that following the (crumb-adjusted) schema path through the schema reaches the constraint is decided by the
    path-resolution oracle on the real code and by diffing full error keys (paths, constraint, value) against the model. *)
 From Coq Require Import List ZArith String Bool.
-From Cerb Require Import Values PyOps Errors Tree Facts SpecFacts FactsOk Pool Validate PathProofs LocProofs Current.
+From Cerb Require Import Values PyOps Errors Tree Facts SpecFacts FactsOk Pool Validate PathProofs LocProofs DefProofs Current.
 Import ListNotations.
 Open Scope string_scope.
 Open Scope list_scope.
@@ -69,6 +69,14 @@ Theorem C12_errors_located : forall fuel x errs,
                      ((exists v, In (field, v) (x_doc x) /\ e_value e = v) \/ e_value e = VNone)) errs.
 Proof. exact (validate_errors_located current). Qed.
 Print Assumptions C12_errors_located.
+
+(* code and rule belong to the same error definition -- for every error a validator records at ANY depth, nested child
+   errors (after bubbling) included.  Induction on fuel over the whole model. *)
+Theorem C12_code_and_rule_of_one_definition_at_every_depth : forall fuel x errs,
+  validate_ctx current fuel x = Ok errs ->
+  Forall (fun e => exists d, (e_code e, e_rule e) = errdef current d) (flatten (f_masks current) errs).
+Proof. exact (validate_errors_defined current). Qed.
+Print Assumptions C12_code_and_rule_of_one_definition_at_every_depth.
 
 Example C12_example :
   let cfg := {| c_allow_unknown := VBool false; c_require_all := false; c_ignore_none := false; c_purge_unknown := false;
